@@ -230,6 +230,10 @@ class AmplitudeChain(ModelDecay):
         elif text is None:
             raise RuntimeError("Must have filename or text")
 
+        # Only keep track of the particles of the file being read
+        cls.all_particles = set()
+        cls.final_particles = set()
+
         lark = Lark(grammar, parser=parser, transformer=AmpGenTransformer(), **kargs)
         parsed = lark.parse(text)
 
